@@ -140,7 +140,9 @@ void sha256_hex(const void *p, size_t n, char out[65]) {
 
 void put_blob(FILE *o, const char *key, const void *p, size_t n) {
     fprintf(o, " %s=", key);
-    if(n > 4096) {
+    static long maxb = -1;
+    if(maxb < 0) { const char *e = getenv("VF_BLOB_MAX"); maxb = e ? atol(e) : 4096; }
+    if(n > (size_t)maxb) {
         char h[65];
         sha256_hex(p, n, h);
         fprintf(o, "#%s:%zu", h, n);
